@@ -81,6 +81,8 @@ func (ex *Exec) callWith(fr *Frame, st *State, c *ssa.CallCommon, fnv Value, arg
 			if cv, ok := fr.regs[mc]; ok && cv.Clo != nil {
 				fn, bindings = cv.Clo.Fn, cv.Clo.Bindings
 			}
+		} else if f, ok := staticFnOrigin[c.Value]; ok {
+			fn = f
 		}
 	}
 	if fn == nil {
@@ -265,6 +267,27 @@ func (ex *Exec) applyContract(fr *Frame, st *State, c *FuncContract, pnames []st
 	}
 	// post state
 	ex.havocModifies(st, c, env, fr)
+	for _, pn := range c.Calls {
+		// a function-typed parameter the callee invokes: whatever that function may write is written
+		var clo *Closure
+		var fnv *ssa.Function
+		for i, n := range pnames {
+			if n == pn && i < len(args) {
+				clo = args[i].Clo
+				fnv = args[i].Fn
+			}
+		}
+		ws := newWriteSet()
+		switch {
+		case clo != nil:
+			ws.union(ex.eng.wa.ofFunction(clo.Fn))
+		case fnv != nil:
+			ws.union(ex.eng.wa.ofFunction(fnv))
+		default:
+			ws.setAll("function argument " + pn + " of " + c.Key + " is not a known literal")
+		}
+		ex.havoc(st, ws, "callback."+pn, fr)
+	}
 	var results []Value
 	for i := 0; i < sig.Results().Len(); i++ {
 		v := freshValue("ret."+c.Key, sig.Results().At(i).Type())
